@@ -15,7 +15,7 @@ EXTENDS TwpRgeLex, IOUtils
 VARIABLE l
 Trace == JsonDeserialize(IOEnv.TRACE_FILE)
 tvars == <<vars, l>>
-TraceInit == l = 1 /\ forms = <<>> /\ dflt = [ns |-> "N", ew |-> "W"] /\ src = "unset" /\ ocr = FALSE /\ phase = "trace"
+TraceInit == l = 1 /\ forms = <<>> /\ dflt = [ns |-> "N", ew |-> "W"] /\ src = [ns |-> "unset", ew |-> "unset"] /\ ocr = FALSE /\ phase = "trace"
 Consume == /\ l <= Len(Trace) /\ l' = l + 1
            /\ forms' = Trace[l].forms /\ dflt' = Trace[l].dflt /\ src' = Trace[l].src /\ ocr' = Trace[l].ocr
            /\ phase' = "observed"
